@@ -21,6 +21,8 @@ pub uninterp spec fn dense(sigma: &BlsSignature, msg: Seq<u8>, index: u64) -> Se
 pub uninterp spec fn lottery(phi_f: f64, ev: Seq<u8>, stake: u64, total: u64) -> bool;
 pub uninterp spec fn commitment_root(c: &MerkleTreeBatchCommitment) -> Seq<u8>;
 pub uninterp spec fn bls_aggregate_valid(msg: Seq<u8>, vks: Seq<VerificationKeyForConcatenation>, sigs: Seq<BlsSignature>) -> bool;   // blst, assumed sound
+pub uninterp spec fn bls_aggregate_of(vks: Seq<VerificationKeyForConcatenation>, sigs: Seq<BlsSignature>) -> (VerificationKeyForConcatenation, BlsSignature);  // BlsSignature::aggregate (random-coefficient aggregation, assumed sound)
+pub uninterp spec fn bls_batch_valid(msgs: Seq<Seq<u8>>, vks: Seq<VerificationKeyForConcatenation>, sigs: Seq<BlsSignature>) -> bool;    // batch_verify_aggregates, assumed sound
 pub uninterp spec fn merkle_ok(c: &MerkleTreeBatchCommitment, leaves: Seq<MerkleTreeConcatenationLeaf>, path: &MerkleBatchPath) -> bool;
 
 pub struct SingleSignatureForConcatenation { pub sigma: BlsSignature, pub indexes: Vec<LotteryIndex> }
@@ -70,6 +72,17 @@ impl BlsSignature {
     #[verifier::external_body]
     pub fn verify_aggregate(msg: &[u8], vks: &Vec<VerificationKeyForConcatenation>, sigs: &Vec<BlsSignature>) -> (r: Result<(), AggregationError>)
         ensures r is Ok ==> bls_aggregate_valid(msg@, vks@, sigs@)
+    { unimplemented!() }
+}
+
+impl BlsSignature {
+    #[verifier::external_body]
+    pub fn aggregate(vks: &Vec<VerificationKeyForConcatenation>, sigs: &Vec<BlsSignature>) -> (r: Result<(VerificationKeyForConcatenation, BlsSignature), AggregationError>)
+        ensures r is Ok ==> r->Ok_0 == bls_aggregate_of(vks@, sigs@)
+    { unimplemented!() }
+    #[verifier::external_body]
+    pub fn batch_verify_aggregates(msgs: &Vec<Vec<u8>>, vks: &Vec<VerificationKeyForConcatenation>, sigs: &Vec<BlsSignature>) -> (r: Result<(), AggregationError>)
+        ensures r is Ok ==> bls_batch_valid(Seq::new(msgs@.len(), |i: int| msgs@[i]@), vks@, sigs@)
     { unimplemented!() }
 }
 
@@ -401,6 +414,72 @@ fn verify(
             .preliminary_verify(msg, avk, parameters)?;
 
         BlsSignature::verify_aggregate(msgp.as_slice(), &vks, &sigs)?;
+        Ok(())
+    }
+// ---- end of extracted text ----
+}
+
+pub open spec fn member_sigmas(p: &ConcatenationProof) -> Seq<BlsSignature> { Seq::new(p.signatures@.len(), |j: int| p.signatures@[j].sig.concatenation_signature.sigma) }
+pub open spec fn member_vks(p: &ConcatenationProof) -> Seq<VerificationKeyForConcatenation> { Seq::new(p.signatures@.len(), |j: int| p.signatures@[j].reg_party.verification_key_for_concatenation) }
+
+/// contracts of the three iterator expressions of batch_verify (map/collect over a member's signatures; zip of msgs and avks)
+#[verifier::external_body]
+fn collect_sigmas(p: &ConcatenationProof) -> (r: Vec<BlsSignature>) ensures r@ == member_sigmas(p) { unimplemented!() }
+#[verifier::external_body]
+fn collect_vks(p: &ConcatenationProof) -> (r: Vec<VerificationKeyForConcatenation>) ensures r@ == member_vks(p) { unimplemented!() }
+#[verifier::external_body]
+fn collect_concat_msgs(msgs: &[Vec<u8>], avks: &[AggregateVerificationKeyForConcatenation]) -> (r: Vec<Vec<u8>>)
+    requires msgs@.len() == avks@.len()
+    ensures r@.len() == msgs@.len(), forall|i: int| 0 <= i < msgs@.len() ==> (#[trigger] r@[i])@ == msgs@[i]@ + commitment_root(&avks@[i].mt_commitment)
+{ unimplemented!() }
+
+impl ConcatenationProof {
+// ---- extracted from mithril-stm/src/proof_system/concatenation/proof.rs:181 (fn batch_verify) ----
+fn batch_verify(
+        stm_signatures: &[Self],
+        msgs: &[Vec<u8>],
+        avks: &[AggregateVerificationKeyForConcatenation],
+        parameters: &[Parameters],
+    ) -> (ret: Result<(), AggregationError>)
+    requires
+        // the three assert_eq! of the real text (a length mismatch panics: precondition of the API)
+        stm_signatures@.len() == msgs@.len(), stm_signatures@.len() == avks@.len(), stm_signatures@.len() == parameters@.len(),
+        forall|i: int| 0 <= i < stm_signatures@.len() ==> flat((#[trigger] stm_signatures@[i]).signatures@, stm_signatures@[i].signatures@.len() as int).len() <= usize::MAX,
+    ensures ret is Ok ==> ({
+        // a batch is accepted only if EACH member passes the preliminary checks with ITS OWN message, key and parameters ...
+        &&& forall|i: int| 0 <= i < stm_signatures@.len() ==> preliminary_ok(&#[trigger] stm_signatures@[i], msgs@[i]@ + commitment_root(&avks@[i].mt_commitment), &avks@[i], &parameters@[i])
+        // ... and the batched BLS check ran on each member's own (keys, signatures) aggregate and its own msg || root
+        &&& exists|vks: Seq<VerificationKeyForConcatenation>, sigs: Seq<BlsSignature>, cm: Seq<Seq<u8>>| #![auto]
+               vks.len() == stm_signatures@.len() && sigs.len() == stm_signatures@.len() && cm.len() == stm_signatures@.len()
+            && (forall|i: int| 0 <= i < stm_signatures@.len() ==> (vks[i], sigs[i]) == bls_aggregate_of(member_vks(&stm_signatures@[i]), member_sigmas(&stm_signatures@[i])) && cm[i] == msgs@[i]@ + commitment_root(&avks@[i].mt_commitment))
+            && bls_batch_valid(cm, vks, sigs)
+    }),
+{
+        let batch_size = stm_signatures.len();
+        
+
+        let mut aggr_sigs: Vec<BlsSignature> = Vec::with_capacity(batch_size);
+        let mut aggr_vks: Vec<VerificationKeyForConcatenation> = Vec::with_capacity(batch_size);
+        for idx in 0..batch_size 
+        invariant
+            batch_size == stm_signatures@.len(), batch_size == msgs@.len(), batch_size == avks@.len(), batch_size == parameters@.len(),
+            aggr_sigs@.len() == idx, aggr_vks@.len() == idx,
+            forall|i: int| 0 <= i < stm_signatures@.len() ==> flat((#[trigger] stm_signatures@[i]).signatures@, stm_signatures@[i].signatures@.len() as int).len() <= usize::MAX,
+            forall|i: int| 0 <= i < idx ==> preliminary_ok(&#[trigger] stm_signatures@[i], msgs@[i]@ + commitment_root(&avks@[i].mt_commitment), &avks@[i], &parameters@[i]),
+            forall|i: int| 0 <= i < idx ==> (#[trigger] aggr_vks@[i], aggr_sigs@[i]) == bls_aggregate_of(member_vks(&stm_signatures@[i]), member_sigmas(&stm_signatures@[i])),
+    { let sig_group = &stm_signatures[idx];
+            sig_group.preliminary_verify(&msgs[idx], &avks[idx], &parameters[idx])?;
+            let grouped_sigs: Vec<BlsSignature> = collect_sigmas(sig_group);
+            let grouped_vks: Vec<VerificationKeyForConcatenation> = collect_vks(sig_group);
+
+            let (aggr_vk, aggr_sig) = BlsSignature::aggregate(&grouped_vks, &grouped_sigs)?;
+            aggr_sigs.push(aggr_sig);
+            aggr_vks.push(aggr_vk);
+        }
+
+        let concat_msgs: Vec<Vec<u8>> = collect_concat_msgs(msgs, avks);
+
+        BlsSignature::batch_verify_aggregates(&concat_msgs, &aggr_vks, &aggr_sigs)?;
         Ok(())
     }
 // ---- end of extracted text ----
